@@ -201,6 +201,9 @@ fn decode_request_pdu_bytes(bytes: &Bytes) -> io::Result<Request<'static>> {
             if bytes.len() < 6 + byte_count {
                 return Err(io::Error::new(ErrorKind::InvalidData, "too short"));
             }
+            if usize::from(quantity) > byte_count * 8 {
+                return Err(io::Error::new(ErrorKind::InvalidData, "invalid quantity"));
+            }
             rdr.consume(byte_count);
             let packed_coils = &bytes[6..6 + byte_count];
             WriteMultipleCoils(address, decode_packed_coils(packed_coils, quantity).into())
